@@ -267,3 +267,49 @@ func Mutations(m []byte, subst []byte, yield func([]byte) bool) {
 		}
 	}
 }
+
+// StringVarFromTests returns the value of the package-level string variable or constant `name`
+// declared in the test files of dir (a literal or a '+' concatenation of literals); "" if absent.
+func StringVarFromTests(dir, name string) string {
+	var eval func(e ast.Expr) (string, bool)
+	eval = func(e ast.Expr) (string, bool) {
+		switch v := e.(type) {
+		case *ast.BasicLit:
+			if v.Kind == token.STRING {
+				s, err := strconv.Unquote(v.Value)
+				return s, err == nil
+			}
+		case *ast.BinaryExpr:
+			if v.Op == token.ADD {
+				a, ok1 := eval(v.X)
+				b, ok2 := eval(v.Y)
+				return a + b, ok1 && ok2
+			}
+		case *ast.ParenExpr:
+			return eval(v.X)
+		}
+		return "", false
+	}
+	for _, f := range parseDir(dir, true) {
+		for _, d := range f.Decls {
+			gd, ok := d.(*ast.GenDecl)
+			if !ok {
+				continue
+			}
+			for _, sp := range gd.Specs {
+				vs, ok := sp.(*ast.ValueSpec)
+				if !ok {
+					continue
+				}
+				for i, n := range vs.Names {
+					if n.Name == name && i < len(vs.Values) {
+						if s, ok := eval(vs.Values[i]); ok {
+							return s
+						}
+					}
+				}
+			}
+		}
+	}
+	return ""
+}
